@@ -3,6 +3,7 @@ import json, os
 
 from . import extract
 from .rules import lock7, seq
+from . import olcrules
 
 VERIF = os.path.dirname(os.path.dirname(os.path.abspath(__file__)))
 B, D = extract.BASELINE, extract.DEBUG
@@ -50,6 +51,66 @@ PROPERTIES['C02'] = {
                    'Each is checked on every CFG path of every instantiation by forward dataflow over the exported event-CFG.',
     'decides': 'address independence of comparisons; sibling-step consistency in seek/next/prior and their OLC counterparts',
     'does_not_decide': 'completeness of seek\'s case analysis for every tree shape and bound; delivered key lists as values',
+}
+
+
+
+def olc(which):
+    return R(lambda cfg, w=which: olcrules.rule(cfg, w))
+
+
+def lock7a(cfg):
+    return lock7.run(cfg, want=('a',))
+
+
+PROPERTIES['C03'] = {
+    'level': 'other',
+    'configs': two,
+    'rules': [olc('LOCK-1'), olc('LOCK-2'), olc('LOCK-3'), olc('LOCK-5'), olc('ROLE')],
+    'explanation': 'Protocol conformance of the optimistic-lock-coupling code, decided by a relational, path-sensitive dataflow (bounded sets of worlds of must/may atoms over the variables of each function, '
+                   'per-return summaries through the dispatcher/shim forwarders, effect summaries for protected-field writes) over every OLC function that owns or receives read sections or write guards, both key kinds: '
+                   'LOCK-1 no node pointer read under a read section is dereferenced, and no non-restart result returned, before that section is re-validated; '
+                   'LOCK-2 every store to a protected field (direct or through callees, index-sensitive for children) happens under an active write guard on the written node, or the node is fresh / obsoleted by this operation; '
+                   'LOCK-3 guards are taken root-to-leaf and nothing waits while a guard is held; LOCK-5 nodes are obsoleted before they are retired; ROLE helper call sites pass matching section/node pairs. '
+                   'Each rule is a necessary condition of linearizability: its breach yields a concrete torn read / lost update under some schedule.',
+    'decides': 'OLC protocol conformance (LOCK-1,2,3,5, ROLE) on every CFG path of every instantiation',
+    'does_not_decide': 'linearizability of histories as such; value-level correctness of the tree algorithms',
+}
+PROPERTIES['C04'] = {
+    'level': 'other',
+    'configs': two,
+    'rules': [olc('LOCK-1'), olc('LOCK-5')],
+    'explanation': 'Structural safety conditions of "no use of reclaimed memory": LOCK-1 (no pointer obtained from a node is followed before the read section on that node is re-validated, so a stale pointer to a retired node is never dereferenced) '
+                   'and LOCK-5 (every node an OLC operation hands to reclamation was unlocked-and-obsoleted by it first, so readers still holding a section on it restart), on every path of every OLC function, both key kinds.',
+    'decides': 'validate-before-dereference; obsolete-before-retire',
+    'does_not_decide': 'that QSBR delays the free long enough (C05); eventual reclamation as liveness',
+}
+PROPERTIES['C09'] = {
+    'level': 'other',
+    'configs': two,
+    'rules': [olc('LOCK-1'), olc('LOCK-7'), olc('LOCK-8'), R(seq.iter1)],
+    'explanation': 'Structural conditions of concurrent-scan correctness on the OLC iterator functions: LOCK-1 (snapshots validated before use / before a non-restart return), LOCK-7b (no validation on an ended, empty or moved-from section), '
+                   'LOCK-8 (every stack entry is pushed with the version of the read section opened on the node it describes, so a later rehydrate/check validates the right lock word), ITER-1 (the sibling computed is the sibling visited, also on the re-seek path).',
+    'decides': 'snapshot validation, stack-entry/version pairing and sibling-step consistency in try_first/last/next/prior/seek and the traversals',
+    'does_not_decide': 'ordering / completeness of delivered keys under interleavings',
+}
+PROPERTIES['C14'] = {
+    'level': 'other',
+    'configs': two,
+    'rules': [olc('LOCK-3'), olc('LOCK-4'), olc('LOCK-7')],
+    'explanation': 'No-deadlock / no-lock-left-held conditions: LOCK-3 (write ownership is only taken by non-blocking upgrade in root-to-leaf order and no waiting primitive - try_read_lock spin, spin_wait_loop_body - is reached while a guard is active, '
+                   'so no wait-for cycle can contain a writer and readers hold nothing), LOCK-4 (no operation on a guard that is not active: no double unlock / null dereference; guards are scope-bound RAII objects), LOCK-7b (sections are not validated after they ended).',
+    'decides': 'lock acquisition order, no-wait-while-locked, guard typestate',
+    'does_not_decide': 'freedom from starvation / livelock (the lock header itself says readers can starve)',
+}
+PROPERTIES['C16'] = {
+    'level': 'other',
+    'configs': two,
+    'rules': [R(lock7a)],
+    'explanation': 'LOCK-7a: in no function of the OLC code is a read section that may still be open overwritten by assignment. An overwritten open section loses its unit of the debug-build read_lock_count, which optimistic_lock::check_on_dealloc '
+                   'asserts to be zero when the node is freed - the one internal assertion that legal usage (scan, then remove) could trip.',
+    'decides': 'balance of the debug read-section accounting on every path (typestate)',
+    'does_not_decide': 'equality of results across SIMD variants; validity of every other assertion',
 }
 
 NOT_APPLICABLE = {}
